@@ -131,6 +131,21 @@ def int_bytes(v, n):
     return out
 
 
+def le_value(bs):
+    """integer whose little-endian bytes are bs; when bs are exactly the registered bytes of an n-byte integer v
+    (0 <= v < 256^n by the producer's range check) the result is v itself"""
+    if bs and all(isz(b) and b.get_id() in _LEBYTE for b in bs):
+        infos = [_LEBYTE[b.get_id()] for b in bs]
+        v0, _, n0 = infos[0]
+        if n0 == len(bs) and all(v.get_id() == v0.get_id() and k == i and n == n0 for i, (v, k, n) in enumerate(infos)):
+            return v0
+    tot = 0
+    for i, b in enumerate(bs):
+        term = b * (256 ** i) if not isz(b) else zi(b) * (256 ** i)
+        tot = tot + term if not (isz(tot) or isz(term)) else zi(tot) + zi(term)
+    return simp(tot) if isz(tot) else tot
+
+
 def _byte_prov(t):
     """(v, k, n, part) for a char / byte term that is (a hex digit of) byte k of an n-byte integer v, else None"""
     if not isz(t):
